@@ -332,3 +332,101 @@ M("c10-matrix-constraint-transposed", "C10", MATRICES,
   '''                    _make_constraint(left_exprs[i][j], sense, right._variables[i][j])''', '''                    _make_constraint(left_exprs[i][j], sense, right._variables[j][i])''', "R10.3", "_matrix_constraint")
 M("c10-post-init-accepts-anything", "C10", CONSTRAINTS,
   '''        if self.sense not in ("<=", ">=", "=="):''', '''        if self.sense not in ("<=", ">=", "==", "=<", "=>"):''', "R10.1", "Constraint.__post_init__")
+
+# ----------------------------------------------------------------------------- C07
+M("c07-scipy-no-unnegate", "C07", SCIPY,
+  '''    obj_value = float(result.fun)
+    if problem.sense == "maximize":
+        obj_value = -obj_value
+''', '''    obj_value = float(result.fun)
+''', "R07.2", "scipy_solver")
+M("c07-lp-unnegate-wrong-sense", "C07", LP,
+  '''        objective_value = float(result.fun)
+        if lp_data.sense == "max":''', '''        objective_value = float(result.fun)
+        if lp_data.sense == "min":''', "R07.2", "lp_solver")
+M("c07-values-stale-index", "C07", SCIPY,
+  '''        values={v.name: float(result.x[i]) for i, v in enumerate(variables)},''', '''        values={v.name: float(result.x[n - 1 - i]) for i, v in enumerate(variables)},''', "R07.3", "solve_scipy:values")
+M("c07-values-resorted-list", "C07", SCIPY,
+  '''        values={v.name: float(result.x[i]) for i, v in enumerate(variables)},''', '''        values={v.name: float(result.x[i]) for i, v in enumerate(sorted(variables, key=lambda v: v.name))},''', "R07.3", "solve_scipy:values")
+M("c07-matrix-handle-transposed", "C07", SOLUTION,
+  '''                result[i, j] = self.values[mat[i, j].name]''', '''                result[i, j] = self.values[mat[j, i].name]''', "R07.4", "Solution._get_matrix")
+M("c07-lpdata-names-from-other-list", "C07", ANALYSIS,
+  '''            variables=[v.name for v in variables],
+        )''', '''            variables=[v.name for v in problem.variables[::-1]],
+        )''', "R07.3", "LPData.variables")
+M("c07-sense-mapping-inverted", "C07", ANALYSIS,
+  '''        sense = "min" if problem.sense == "minimize" else "max"''', '''        sense = "max" if problem.sense == "minimize" else "min"''', "R07.2", "extract_objective")
+
+# ----------------------------------------------------------------------------- C08
+M("c08-beq-as-bub", "C08", LP,
+  '''        linprog_kwargs["b_eq"] = lp_data.b_eq''', '''        linprog_kwargs["b_eq"] = lp_data.b_ub''', "R08.2", "b_eq")
+M("c08-highs-variant-not-forwarded", "C08", PROBLEM,
+  '''            return solve_lp(self, method=method, strict=strict, **kwargs)''', '''            return solve_lp(self, strict=strict, **kwargs)''', "R08.1", "variant-forwarded" if False else "Problem.solve[highs")
+M("c08-highs-ipm-leaks-to-nlp", "C08", PROBLEM,
+  '''        if method in ("highs", "highs-ds", "highs-ipm"):''', '''        if method in ("highs", "highs-ds"):''', "R08.1")
+M("c08-status-swapped", "C08", LP,
+  '''    elif result.status == 2:  # Infeasible
+        status = SolverStatus.INFEASIBLE
+    elif result.status == 3:  # Unbounded
+        status = SolverStatus.UNBOUNDED''', '''    elif result.status == 3:  # Infeasible
+        status = SolverStatus.INFEASIBLE
+    elif result.status == 2:  # Unbounded
+        status = SolverStatus.UNBOUNDED''', "R08.3")
+M("c08-auto-not-guarded", "C08", PROBLEM,
+  '''            if self._is_linear_problem():
+                from optyx.solvers.lp_solver import solve_lp
+
+                return solve_lp(self, strict=strict, **kwargs)
+            else:
+                method = self._auto_select_method()''', '''            if self._objective is not None and not self._constraints:
+                from optyx.solvers.lp_solver import solve_lp
+
+                return solve_lp(self, strict=strict, **kwargs)
+            else:
+                method = self._auto_select_method()''', "R08.1", "Problem.solve[auto]")
+M("c08-no-revalidation", "C08", LP,
+  '''    for constraint in problem.constraints:
+        if not is_linear(constraint.expr):
+            raise NonLinearError(
+                expression=repr(constraint.expr)[:100],
+                context="LP solver constraint",
+                suggestion="Use solve() with a nonlinear solver for nonlinear constraints.",
+            )
+''', '''''', "R08.1", "solve_lp")
+
+# ----------------------------------------------------------------------------- C09
+M("c09-gradient-from-unnegated", "C09", SCIPY,
+  '''    cache["grad_fn"] = compile_jacobian([obj_expr], variables)''', '''    cache["grad_fn"] = compile_jacobian([problem.objective], variables)''', "R09.1", "obj_fn/grad_fn")
+M("c09-bounds-other-order", "C09", SCIPY,
+  '''    bounds = []
+    for v in variables:
+        lb = v.lb if v.lb is not None else -np.inf''', '''    bounds = []
+    for v in sorted(variables, key=lambda v: v.name):
+        lb = v.lb if v.lb is not None else -np.inf''', "R09.3", "bounds")
+M("c09-x0-above-ub", "C09", SCIPY,
+  '''            x0[i] = ub - 1.0''', '''            x0[i] = ub + 1.0''', "R09.4", "_compute_initial_point")
+M("c09-x0-both-uncapped", "C09", SCIPY,
+  '''            x0[i] = min(lb + epsilon, (lb + ub) / 2)''', '''            x0[i] = lb + epsilon''', "R09.4", "_compute_initial_point")
+M("c09-auto-lbfgsb-with-constraints", "C09", PROBLEM,
+  '''        # General constraints with linear/quadratic objective → SLSQP (with fallback)
+        return "SLSQP"''', '''        # General constraints with linear/quadratic objective → SLSQP (with fallback)
+        return "L-BFGS-B"''', "R09.5", "_auto_select_method")
+M("c09-hessian-not-negated", "C09", SCIPY,
+  '''            if problem.sense == "maximize":
+                obj_expr = -obj_expr  # type: ignore[operator]
+            compiled_hess''', '''            compiled_hess''', "R09.2")
+M("c09-ub-default-wrong", "C09", SCIPY,
+  '''        ub = v.ub if v.ub is not None else np.inf
+        bounds.append((lb, ub))''', '''        ub = v.ub if v.ub is not None else np.inf
+        bounds.append((ub, lb))''', "R09.3", "bounds")
+M("c09-jac-withheld-for-slsqp", "C09", SCIPY,
+  '''        "Powell",
+        "COBYLA",
+    }''', '''        "Powell",
+        "COBYLA",
+        "SLSQP",
+    }''', "R09.1", "minimize(jac=)")
+M("c09-tol-dropped", "C09", SCIPY,
+  '''            tol=tol,
+            options=options if options else None,''', '''            tol=None,
+            options=options if options else None,''', "R09.1", "minimize(tol=)")
